@@ -34,6 +34,9 @@ type Program struct {
 	// Tick: the virtual clock advances by one tick on every read (time passes between the steps
 	// of a call); the model decides liveness by a call's first clock read and stamps by its last.
 	Tick bool `json:"tick,omitempty"`
+	// Collide (string Map / Cache): hot keys 0 and 2 are strings that share their root bucket AND
+	// their 20-bit top hash in the fresh 32-bucket table (found by search in resolve()).
+	Collide bool `json:"collide,omitempty"`
 
 	effFill, effKeep int
 }
@@ -47,7 +50,7 @@ func (p *Program) keepEff() int {
 
 func (p *Program) Text() string {
 	var sb strings.Builder
-	fmt.Fprintf(&sb, "container: %s; layout seed %#x; hot keys k0..k%d; cold keys %d (of %d filled) mode=%q effective fill %d ticking clock=%v\n", p.Spec.String(), p.Layout, p.Hot-1, p.Keep, p.Fill, p.Mode, p.effFill, p.Tick)
+	fmt.Fprintf(&sb, "container: %s; layout seed %#x; hot keys k0..k%d; cold keys %d (of %d filled) mode=%q effective fill %d ticking clock=%v top-hash-colliding k0/k2=%v\n", p.Spec.String(), p.Layout, p.Hot-1, p.Keep, p.Fill, p.Mode, p.effFill, p.Tick, len(p.Spec.Alias) > 0)
 	if len(p.Pre) > 0 {
 		sb.WriteString("prefix:")
 		for _, o := range p.Pre {
